@@ -91,6 +91,11 @@ func (s *scanner) BeginEexec(ivLen int) error {
 	}
 	s.regurgitate = false
 
+	// The plaintext starts a new line, whatever the lead bytes happen to
+	// decrypt to.
+	s.Col = 0
+	s.crSeen = false
+
 	return nil
 }
 
